@@ -66,7 +66,7 @@ fn u16_to_ne_bytes(x: u16) -> (r: [u8; 2]) ensures u16_of(r[0], r[1]) == x as in
 //@const file=yarel/src/common.rs name=JUMP_SIZE_MAX
 
 //@struct file=yarel/src/scanner.rs name=Token
-//@enum file=yarel/src/scanner.rs name=TokenKind
+//@enum file=yarel/src/scanner.rs name=TokenKind eq=1
 //@struct file=yarel/src/compiler.rs name=Local
 //@struct file=yarel/src/compiler.rs name=Upvalue
 // Root<ObjFunction>: the finished function object (opaque here)
@@ -417,11 +417,14 @@ impl Parser {
         ensures old(self).same_but_errors(final(self)), final(self).has_error(),
     { unimplemented!() }
 
-    #[verifier::external_body]
-    fn compiler_error(&mut self, error: CompilerError)
-        ensures old(self).same_but_errors(final(self)),
-            (error is JumpTooLarge || error is ReadVarInInitialiser || error is TooManyClosureVars || error is InvalidControlStatement) ==> final(self).has_error(),
-    { unimplemented!() }
+    // what the compiler's own failure codes become: each of the four that mean "this program is wrong" is a reported
+    // compile error; LocalNotFound / InvalidCompilerKind only mean "look further out" (resolve_variable falls through to
+    // the next kind of variable) and report nothing
+    //@fn file=yarel/src/compiler.rs path=Parser::compiler_error props=C04,C03
+    //@  rewrite R13
+    //@  ensures old(self).same_but_errors(final(self))
+    //@  ensures @a_failure_code_that_means_the_program_is_wrong_is_a_reported_compile_error (error is JumpTooLarge || error is ReadVarInInitialiser || error is TooManyClosureVars || error is InvalidControlStatement) ==> final(self).has_error()
+    //@end
 
     //@fn file=yarel/src/compiler.rs path=Parser::compiler ret=r
     //@  requires old(self).compilers.len() > 0
